@@ -308,7 +308,13 @@ func (d *decompressor) readMember() error {
 	// Read compressed data into the decompressor buffer until the
 	// underlying flate.Reader is positioned at the end of the gzip
 	// member in which the readMember call was made.
-	return d.buf.readLimited(need, d.cr)
+	err = d.buf.readLimited(need, d.cr)
+	if err == io.EOF {
+		// The member has started: running out of data here is a
+		// truncation, not the end of the stream.
+		err = io.ErrUnexpectedEOF
+	}
+	return err
 }
 
 // Offset is a BGZF virtual offset.
